@@ -218,6 +218,7 @@ class Runtime:
         self.depth = 0
         self._enums: Dict[Tuple[str, str], Any] = {}
         self.sym_compare = None                   # default hook for comparisons of symbolic values
+        self.global_values: Dict[Any, Any] = {}
         self.overrides: Dict[str, Any] = {}       # FuncInfo.qualname -> callable(args, kw) replacing the body
 
     # ---- evaluation ---------------------------------------------------------------------------------------
@@ -335,8 +336,11 @@ class Runtime:
             return True, BoundFunc(self, r[1], None)
         if r[0] == "global":
             m, nm = r[1]
-            ev = self.evaluator(m)
-            return True, ev.ev(m.globals[nm])
+            key = (m.name, nm)
+            if key not in self.global_values:       # a module-level object exists once (mutable caches persist)
+                ev = self.evaluator(m)
+                self.global_values[key] = ev.ev(m.globals[nm])
+            return True, self.global_values[key]
         if r[0] == "external":
             if r[1] in self.externals:
                 return True, self.externals[r[1]]
